@@ -52,6 +52,9 @@ pub fn filter_matches<L: Locale>(requested: &[LanguageIdentifier], available: &[
     let mut available_locales: Vec<L> = available.to_vec();
 
     for req in requested.iter().cloned() {
+        // matches of this request start here, the order of the requests is the order of preference.
+        let req_start = supported_locales.len();
+
         macro_rules! test_strategy {
             ($self_as_range:expr) => {{
                 let mut match_found = false;
@@ -72,18 +75,20 @@ pub fn filter_matches<L: Locale>(requested: &[LanguageIdentifier], available: &[
         // 2) Try to match against the available locales treated as ranges.
         test_strategy!(true);
 
+        // most specific first, but only among the matches of the same request:
+        // a match for a later request must never come before a match for an earlier one.
+        supported_locales[req_start..].sort_by(|x, y| {
+            let x_specificity = into_specificity(x.as_ref());
+            let y_specificity = into_specificity(y.as_ref());
+            x_specificity.cmp(&y_specificity).reverse()
+        });
+
         // Per Unicode TR35, 4.4 Locale Matching, we don't add likely subtags to
         // requested locales, so we'll skip it from the rest of the steps.
         if req.language.is_empty() {
             continue;
         }
     }
-
-    supported_locales.sort_by(|x, y| {
-        let x_specificity = into_specificity(x.as_ref());
-        let y_specificity = into_specificity(y.as_ref());
-        x_specificity.cmp(&y_specificity).reverse()
-    });
 
     supported_locales
 }
